@@ -227,6 +227,13 @@ func (w *vfWorld) writeFile(name, content string) string {
 	return p
 }
 
+// TLSFrontArgs returns the options of a deployment that terminates TLS itself: certificate files and an HTTPS
+// address. NewOAuthProxy opens that listener (loopback, port 0) but the simulator never starts it; requests arrive
+// through the SimBrowser with req.TLS set (cfg.Scheme = "https").
+func (w *vfWorld) TLSFrontArgs() []string {
+	return []string{"--https-address=127.0.0.1:0", "--tls-cert-file=" + w.writeFile("tls-cert.pem", vfTLSCertPEM), "--tls-key-file=" + w.writeFile("tls-key.pem", vfTLSKeyPEM)}
+}
+
 // ---------------------------------------------------------------------------------------------
 // Replicas of the real proxy
 // ---------------------------------------------------------------------------------------------
